@@ -923,4 +923,3 @@ func c12Replay(c *fw.Ctx, raw json.RawMessage) {
 		c.Violation("C12", res.vio.Class, res.vio.Key, res.vio.Detail, j)
 	}
 }
-
